@@ -2,13 +2,16 @@ package locks
 
 // Concurrent calls on one real directory tree: renames in opposite
 // directions, removal of directories that are being entered, bulk
-// removals racing with creation, listing and filtering. A watchdog looks
-// for a state in which every unfinished worker is parked in a mutex.
+// removals racing with creation, listing and filtering; leaves also
+// travel between a directory, its parent, its children and its siblings.
+// A deadlock is read off one consistent snapshot of all goroutines in
+// which every unfinished worker (and every other goroutine that executes
+// real code) waits, one of them for a mutex (blockedKind in env_test.go);
+// the clock never decides.
 
 import (
 	"fmt"
 	"math/rand"
-	"strings"
 	"sync"
 	"sync/atomic"
 	"testing"
@@ -29,6 +32,13 @@ import (
 var containerNames = []string{"A", "B", "C"}
 
 var movableNames = []string{"f", "e", "n", "h", "lz", "lf", "s", ".hid1"}
+
+// leafOnlyNames are only ever given to leaves (nothing creates a
+// directory under them), so whatever a rename moves under such a name is
+// a leaf: these renames may go in any direction between the root, the
+// containers and the directories below them (parent to child, child to
+// parent, siblings) without a directory ending up inside itself.
+var leafOnlyNames = []string{"L1", "L2", "L3"}
 
 type concStats struct {
 	mu    sync.Mutex
@@ -94,7 +104,28 @@ func (w *concWorker) step() {
 	nm := w.movable()
 	mask := []virtual.AttributesMask{maskLocked, maskUnlocked}[w.rng.Intn(2)]
 	var out virtual.Attributes
-	switch k := w.rng.Intn(30); {
+	switch k := w.rng.Intn(37); {
+	case k >= 30:
+		// Leaves travelling between a directory, its parent, its child
+		// and a sibling, in all directions; the target name may be a
+		// directory (third lock of rename).
+		dirs := []virtual.PrepopulatedDirectory{c, w.inner(c), e.root, w.container(), w.inner(w.container())}
+		src := dirs[w.rng.Intn(len(dirs))]
+		dst := dirs[w.rng.Intn(len(dirs))]
+		leaf := leafOnlyNames[w.rng.Intn(len(leafOnlyNames))]
+		if w.rng.Intn(2) == 0 {
+			l, _, _, s := src.VirtualOpenChild(ctxBG, comp(leaf), virtual.ShareMaskWrite, &virtual.Attributes{}, &virtual.OpenExistingOptions{}, mask, &out)
+			w.stats.add("VirtualOpenChild", st(s))
+			if s == virtual.StatusOK {
+				l.VirtualClose(virtual.ShareMaskWrite)
+			}
+		}
+		target := leafOnlyNames[w.rng.Intn(len(leafOnlyNames))]
+		if w.rng.Intn(3) == 0 {
+			target = nm
+		}
+		_, _, s := src.VirtualRename(ctxBG, comp(leaf), dst, comp(target))
+		w.stats.add("VirtualRename", st(s))
 	case k < 7:
 		c2 := w.container()
 		_, _, s := c.VirtualRename(ctxBG, comp(nm), c2, comp(w.movable()))
@@ -234,31 +265,16 @@ func concWorkerMain(w *concWorker, ops int, started *sync.WaitGroup) {
 	}
 }
 
-// parkedInMutex returns how many of the unfinished workers are parked
-// waiting for a mutex, how many are unfinished, and their stacks.
-func parkedInMutex(workers []*concWorker) (parked, unfinished int, stacks string) {
-	dump := goroutineDump()
-	var sb strings.Builder
+// unfinishedWorkers returns the goroutine ids of the workers that have
+// not finished.
+func unfinishedWorkers(workers []*concWorker) []string {
+	var ids []string
 	for _, w := range workers {
-		if w.done.Load() {
-			continue
-		}
-		unfinished++
-		for _, g := range dump {
-			if strings.HasPrefix(g.stack, w.gid+" [") {
-				if isMutexWait(g.state) {
-					parked++
-				}
-				lines := strings.Split(g.stack, "\n")
-				if len(lines) > 14 {
-					lines = lines[:14]
-				}
-				sb.WriteString(strings.Join(lines, "\n"))
-				sb.WriteString("\n\n")
-			}
+		if !w.done.Load() {
+			ids = append(ids, w.gid)
 		}
 	}
-	return parked, unfinished, sb.String()
+	return ids
 }
 
 func TestDirConcurrent(t *testing.T) {
@@ -271,10 +287,14 @@ func TestDirConcurrent(t *testing.T) {
 	stats := &concStats{pairs: map[string]int{}}
 	total := int64(0)
 	for round := 0; round < rounds; round++ {
-		e := newEnv(tr)
-		tr.Emit(common.Ev{"ev": "reset", "trace": round, "mode": "concurrent"})
+		fuse := round%3 == 2
+		e := newEnvWith(tr, envOptions{fuse: fuse})
+		tr.Emit(common.Ev{"ev": "reset", "trace": round, "mode": "concurrent", "fuse": fuse})
 		for _, n := range containerNames {
 			e.populate(e.mkdir(e.root, n))
+		}
+		if fuse && !e.record("dir", "fixture", "concurrent", func() string { return "ok" }) {
+			continue
 		}
 		progress := &atomic.Int64{}
 		var workers []*concWorker
@@ -304,25 +324,25 @@ func TestDirConcurrent(t *testing.T) {
 				last, lastChange = p, time.Now()
 				continue
 			}
-			if time.Since(lastChange) < stall {
+			if time.Since(lastChange) < time.Second {
 				continue
 			}
-			// No call returned for a long time. If every unfinished
-			// worker is parked in a mutex (twice, seconds apart, still
-			// without progress) nobody is left to unlock: deadlock.
-			parked, unfinished, stacks := parkedInMutex(workers)
-			if unfinished > 0 && parked == unfinished {
-				time.Sleep(3 * time.Second)
-				parked2, unfinished2, _ := parkedInMutex(workers)
-				if progress.Load() == last && unfinished2 == unfinished && parked2 == unfinished2 {
-					tr.Emit(common.Ev{"ev": "deadlock", "obj": "dir", "workers": nWorkers, "unfinished": unfinished, "parked": parked, "progress": last, "stacks": stacks})
-					deadlocked = true
-					break
-				}
+			// No call returned for a moment: look at one consistent
+			// snapshot of all goroutines. If every unfinished worker,
+			// and every other goroutine that executes real code, waits
+			// (one of the workers for a mutex), nobody is left to
+			// unlock: deadlock. The verdict does not depend on how long
+			// anything took (see blockedKind).
+			need := unfinishedWorkers(workers)
+			kind, stacks := blockedKind(goroutineDump(), need)
+			if kind == "mutex" {
+				tr.Emit(common.Ev{"ev": "deadlock", "obj": "dir", "workers": nWorkers, "unfinished": len(need), "parked": len(need), "progress": last, "stacks": stacks})
+				deadlocked = true
+				break
 			}
-			if time.Since(lastChange) > 10*stall {
+			if kind == "channel" || time.Since(lastChange) > 10*stall {
 				tr.Close()
-				t.Fatalf("INFRA: no progress for %v but the workers are not all waiting for a mutex (%d of %d)\n%s", time.Since(lastChange), parked, unfinished, stacks)
+				t.Fatalf("INFRA: no progress for %v but the workers are not waiting for mutexes (%s)\n%s", time.Since(lastChange), kind, stacks)
 			}
 		}
 		if deadlocked {
@@ -333,6 +353,9 @@ func TestDirConcurrent(t *testing.T) {
 		e.discover()
 		busy := e.busy()
 		tr.Emit(common.Ev{"ev": "call", "obj": "dir", "call": "concurrent-calls", "variant": fmt.Sprintf("workers=%d;ops=%d", nWorkers, ops), "outcome": "quiescent", "locks_free": len(busy) == 0, "busy": busy})
+		if len(busy) == 0 {
+			e.probeFUSE("concurrent-calls")
+		}
 	}
 	common.WriteJSON("meta.json", map[string]any{"rounds": rounds, "workers": nWorkers, "calls": total, "pairs": stats.pairs})
 }
